@@ -717,7 +717,7 @@ def part_d(ctx, exprs, meta):
 # ------------------------------------------------------------------------------------------
 # (e) initializers that are VALUE OBJECTS of related types, through every entry point
 
-def family(rng, kind, ops, keep):
+def family(rng, kind, ops, keep, extra=None):
     """P (constraints = intersection of `ops`) and types related to it: [(label, type object, ops')] where the
     intersection of ops' is the set the type's subtypeSpec denotes.  Related = derived with subtype()/clone(), or
     built with unions / intersections / exclusions around P's own subtypeSpec object or its operands (which makes
@@ -725,7 +725,7 @@ def family(rng, kind, ops, keep):
     cls = BASES[kind][0]
     P = make_type(kind, ops)
     ptree = ('and', ops)
-    extra = st.gen_tree(rng, kind, rng.randrange(1, 3))
+    extra = extra if extra is not None else st.gen_tree(rng, kind, rng.randrange(1, 3))
     pextra = st.to_pyasn1(extra)
     fresh = lambda: [st.to_pyasn1(o) for o in ops]
     fam = [('parent', P, ops)]
@@ -818,7 +818,7 @@ def part_e(ctx, exprs, meta):
                 exprs.append('outcome_eqb %s %s' % (model, rc))
                 meta.append(('model and implementation disagree on %s from a value object' % what, dict(case, impl=out), None))
 
-    for t in range(ctx.n(20, 160)):
+    for t in range(ctx.n(12, 160)):
         kind = ['int', 'int', 'bytes', 'text', 'oid', 'bits'][t % 6]
         for attempt in range(12):
             ops = [st.gen_tree(rng, kind, rng.randrange(1, 3)) for _ in range(rng.choice([1, 1, 2]))]
@@ -1023,6 +1023,21 @@ def replay(data):
             f = dict(INT_BIN)[case['op']]
             res, exc = run_op(f, case['operand'][1], obj) if case.get('reflected') else run_op(f, obj, case['operand'][1])
             print('operation now:', repr(res) if exc is None else type(exc).__name__ + ': ' + str(exc)[:200])
+    elif part == 'e' and 'source' in case:
+        kind, v = case['kind'], case['value']
+        fam, _ = family(None, kind, case['ops'], [], extra=case['extra'])
+        S = [T for l, T, _ in fam if l == case['source']][0]
+        T, t_ops = [(T, o) for l, T, o in fam if l == case['target']][0]
+        sobj = S.clone(raw_of(v))
+        print('source type %s: %r' % (case['source'], S.subtypeSpec))
+        print('target type %s: %r' % (case['target'], T.subtypeSpec))
+        print('target.isSuperTypeOf(source) =', bool(T.isSuperTypeOf(S)),
+              '; set theory: payload %r in target = %s' % (v, st.member(('and', t_ops), None, v) if t_ops else True))
+        for what, f in (('clone(obj)', lambda: T.clone(sobj)), ('subtype(obj)', lambda: T.subtype(sobj)),
+                        ('class(obj, **readOnly)', lambda: T.__class__(sobj, **T.readOnly))):
+            res, exc = run_op(f)
+            print('   %s now: %s' % (what, repr(res) if exc is None else type(exc).__name__))
+        print('model:', core.coq_show(IMPORTS, 'op_clone %s %s' % (stype_coq(kind, t_ops), st.sval_coq(v))))
     elif part == 'd':
         tree = case['tree']
         cls = getattr(univ, case['type'])
